@@ -172,6 +172,39 @@ pub fn run_build(ctx: &Ctx) -> Report {
         check_variants(&u, (la, s, r), &menus, l, &coll);
     });
     rep.add_space(&format!("{}:E4.variants", tag), json!({"triples": n, "variant_lists": 3}), &st2);
+    // the complete script domain: every one of the 26^4 well-formed script subtags (the universe
+    // holds only the scripts of the CLDR data) with languages never listed right-to-left: a listed
+    // script decides alone, every other script leaves the identifier left-to-right -- a change that
+    // folds or special-cases a script code the data do not mention (`Aran`, `Latf`, ...) lives here
+    {
+        use unic_langid_impl::subtags::{Language, Region, Script};
+        let listed: std::collections::HashMap<String, Dir> = dr.script_dir.iter().map(|(k, v)| (k.clone(), *v)).collect();
+        let ctxs: Vec<(Language, Option<Region>)> = vec![("en".parse().unwrap(), None), ("und".parse().unwrap(), None), ("fr".parse().unwrap(), Some("PK".parse().unwrap()))];
+        let n4 = 26u64.pow(4);
+        let st4 = par_range(ctx, "E4.script_domain", n4, 1 << 12, &|idx, l| {
+            let mut b = [0u8; 4];
+            let mut r = idx;
+            for k in (0..4).rev() {
+                b[k] = b'a' + (r % 26) as u8;
+                r /= 26;
+            }
+            b[0] = b[0].to_ascii_uppercase();
+            let Ok(sc) = Script::from_bytes(&b) else { return };
+            let name = std::str::from_utf8(&b).unwrap();
+            let want = listed.get(name).copied().unwrap_or(Dir::LTR);
+            for (la, re) in &ctxs {
+                l.counters[0] += 1;
+                let li = LanguageIdentifier::from_parts(*la, Some(sc), *re, &[]);
+                let got = to_dir(li.character_direction());
+                if got != want {
+                    dviol(&coll, l, if listed.contains_key(name) { "c14.script" } else { "c14.default_ltr" }, "complete script domain: the direction is not what the script (listed) / the default (unlisted script, language never right-to-left) demands".into(), &li.to_string(), format!("{:?}", want), format!("{:?}", got));
+                }
+            }
+        });
+        let mut stx = st4;
+        stx.inputs = stx.local.counters[0];
+        rep.add_space(&format!("{}:E4.script_domain", tag), json!({"scripts": n4, "contexts": 3}), &stx);
+    }
     // every real-world variant word (registered IANA variants: romanisations, orthographies, ...),
     // alone and beside another variant, on every language listed right-to-left or multi-direction
     // (and a few others) x {no script, each listed script, an unlisted script} x {no region, a region}:
